@@ -39,12 +39,13 @@ PROPS = {
         "assumptions": COMMON_ASSUME,
     },
     "C04": {
-        "rules": ["R-NOTFOUND", "R-WINDOW", "R-ALPHAGUARD", "R-BUCKET", "R-FMMAP", "R-SCANEXIT", "R-CMPSIGN", "R-BSEARCH", "R-SCANSIGN", "R-BISECT", "R-IDRANGE", "R-EXTENT-FM", "R-CMPEND", "R-BYTEORDER"],
+        "rules": ["R-COPYBOUND", "R-NOTFOUND", "R-WINDOW", "R-ALPHAGUARD", "R-BUCKET", "R-FMMAP", "R-SCANEXIT", "R-CMPSIGN", "R-BSEARCH", "R-SCANSIGN", "R-BISECT", "R-IDRANGE", "R-EXTENT-FM", "R-CMPEND", "R-BYTEORDER"],
         "explanation": "The structural half of prefix search: the not-found protocol of the in-bucket search helpers (all five front-coding kinds), "
                        "agreement between the located ID range and the window handed to the string iterator under that iterator class's own "
                        "first/end protocol (symbolic count = right-left+1, incl. the empty range), alphabet guard for absent bytes. "
                        "Added later: early scan exit, comparator orientation / search direction / bisection interval coverage, match-only-at-end-of-pattern, the contiguous ID iterator's range (incl. the empty result), FM-index table extents in built and loaded objects, purity of the prefix operations.",
-        "decided": ["searchPrefix-style helpers can report not-found where callers test for it (R-NOTFOUND)",
+        "decided": ["a block copy whose count is a caller-supplied query length goes into a buffer whose extent covers that length or is tested against it (R-COPYBOUND; found the XBW string iterator, fixed a39b29e)",
+                    "searchPrefix-style helpers can report not-found where callers test for it (R-NOTFOUND)",
                     "extractPrefix yields exactly right-left+1 strings for the range locatePrefix computes; extractTable numElements (R-WINDOW)",
                     "bytes occurring in no member cannot index occ[] (R-ALPHAGUARD)",
                     "three-way string comparators are oriented one way on all their paths (sign polarity of the pattern bytes in every returned value, R-CMPSIGN)",
@@ -99,12 +100,13 @@ PROPS = {
         "assumptions": COMMON_ASSUME,
     },
     "C07": {
-        "rules": ["R-VARFIELD", "R-CHUNKINIT", "R-ITERSTATE", "R-STATE", "R-DERIVED", "R-FIXEDBUF", "R-INITCOVER", "R-EXTENT", "R-KILLUSE", "R-DANGLING", "R-ALPHAGUARD", "R-DEDUP", "R-IDGUARD", "R-SHIFT", "R-CLAMP", "R-ZEROFILL", "R-GROW", "R-SLACK", "R-ALLOCFORM", "R-LOCKSET", "R-BYTEINDEX", "R-REFCOUNT", "R-COUNTERWIDTH", "R-BUCKET", "R-PREDINDEX"],
+        "rules": ["R-COPYBOUND", "R-VARFIELD", "R-CHUNKINIT", "R-ITERSTATE", "R-STATE", "R-DERIVED", "R-FIXEDBUF", "R-INITCOVER", "R-EXTENT", "R-KILLUSE", "R-DANGLING", "R-ALPHAGUARD", "R-DEDUP", "R-IDGUARD", "R-SHIFT", "R-CLAMP", "R-ZEROFILL", "R-GROW", "R-SLACK", "R-ALLOCFORM", "R-LOCKSET", "R-BYTEINDEX", "R-REFCOUNT", "R-COUNTERWIDTH", "R-BUCKET", "R-PREDINDEX"],
         "explanation": "Structural preconditions of memory safety, each a necessary condition with confirmed instances: no operation consults state the "
                        "creation path never set, saved extents equal allocated extents, nothing reachable from a dictionary is freed by an operation or "
                        "left dangling by a loader, pattern bytes are range-checked before indexing, duplicate iterators have their sentinel, ids are "
                        "guarded, shifts stay below the operand width over the whole legal domain, bucket size 0/1 cannot reach the arithmetic.",
-        "decided": ["callers of the libcds variable-field primitives form the end of a possibly empty field at size_t width, so that the empty-field test of the primitives holds (R-VARFIELD; found BitSequenceRRR::build / rank1, fixed 4286cb7)",
+        "decided": ["a block copy whose count is a caller-supplied query length goes into a buffer whose extent covers that length or is tested against it (R-COPYBOUND; found the XBW string iterator, fixed a39b29e)",
+                    "callers of the libcds variable-field primitives form the end of a possibly empty field at size_t width, so that the empty-field test of the primitives holds (R-VARFIELD; found BitSequenceRRR::build / rank1, fixed 4286cb7)",
                     "every field an iterator's hasNext/next/size reads is assigned by each constructor of the concrete iterator class (R-ITERSTATE; found the block table iterator's size, fixed 1935db3)",
                     "a scalar member computed from the data by the building path and read by queries/getSize/save is not left at a constant on the load path: it is read back or recomputed (R-DERIVED)",
                     "stores into fixed-size arrays through a run-time index have some bound on the way to the store (R-FIXEDBUF; only the absence of any bound is reported)",
